@@ -123,9 +123,14 @@ void harness_lifecycle(void)
 {
 	unsigned L = vin_u32();
 #ifdef CN
-	unsigned N = CN, T = CT;
+	unsigned N = CN;
 #else
-	unsigned N = vin_u32(), T = vin_u32();
+	unsigned N = vin_u32();
+#endif
+#ifdef CT
+	unsigned T = CT;
+#else
+	unsigned T = vin_u32();
 #endif
 	unsigned n = vin_u32();
 	VERIF_ASSUME(L >= 1 && L <= MAXLP && N >= 1 && N <= MAXN && N <= L && n < N && T >= 1 && T <= MAXN);
